@@ -207,12 +207,13 @@ def jobs(tier):
         add('subset_n2_k0', job_subset, n=2, k=0, eps='', partial=False)
         add('subset_n1_k2', job_subset, n=1, k=2, eps='', partial=True)
         add('history_n2_k1', job_history, n=2, k=1, eps='')
-        add('large_subsets_n10', job_large_subsets, n=10, nsym=3)
+        add('large_subsets_n10', job_large_subsets, n=10, nsym=2)
     else:
         add('subset_n3_k2', job_subset, n=3, k=2, eps='', partial=False, timeout=3000)
         add('subset_n3_k2_sparse', job_subset, n=3, k=2, eps='_', partial=True, timeout=3000)
         add('subset_n4_k1', job_subset, n=4, k=1, eps='', partial=False, timeout=3000)
         add('history_n3_k1', job_history, n=3, k=1, eps='_', timeout=3000)
+        add('large_subsets_n10_s3', job_large_subsets, n=10, nsym=3, timeout=3000)
         add('large_subsets_n12', job_large_subsets, n=12, nsym=4, timeout=3000)
     return J
 
